@@ -251,6 +251,9 @@ Proof.
 Qed.
 End Save.
 
+Lemma save_data_ignores_settings_ok : stmt_save_data_ignores_settings.
+Proof. intros T O finf fmax I s s'. split; reflexivity. Qed.
+
 (** ** non-vacuity: the hypotheses bundles are inhabited *)
 From Coq Require Import Reals Lra.
 Lemma field_laws_R : FieldLaws OpsR.
